@@ -196,6 +196,16 @@ def repeated_lines_through_executor(rep):
         "blank-and-indent": ([("a", ["if x:", "    y = 1", "", "if z:", "    y = 1"], [])], ["a"]),
     }
     n = 0
+    # the same name with scripts that differ only in white space (indentation, trailing blank) is a DIFFERENT script: ValueError
+    for la, lb in ((["if flag:", "    run(1)"], ["if flag:", "run(1)"]), (["x = 1"], ["x = 1 "]), (["x = 1"], [" x = 1"]), (["x = 1", ""], ["x = 1"])):
+        for first, second in ((la, lb), (lb, la)):
+            q = (f"MetaData(MetaData(ds, {{'metadata_type': 'add_job_script', 'name': 'w', 'script': {first!r}, 'depends_on': []}}), "
+                 f"{{'metadata_type': 'add_job_script', 'name': 'w', 'script': {second!r}, 'depends_on': []}}).Select(lambda e: e.Jets('A').Count())")
+            pkg = translate(q, "atlas")
+            n += 1
+            if pkg.ok or pkg.exc_type != "ValueError":
+                rep.violation(f"exe-ws-{n}", f"same block name with scripts differing only in white space was not refused with ValueError ({'package returned' if pkg.ok else pkg.exc_type}): {first} vs {second}",
+                              {"query": q, "scenario": "white-space-only-conflict"})
     for sname, (blocks, order) in scen.items():
         for perm in __import__("itertools").permutations(range(len(blocks))):
             src = "ds"
